@@ -95,6 +95,13 @@ def doc_level(ctx: Ctx, cs):
             for col, c in enumerate(ln.cells):
                 if c.kind == 'tandem':
                     cand.append((li, col))
+        elif ln.kind == 'fcomment' and len(ln.cells) > 1:
+            # a cell of a local-comment record: the record is read cell by cell like any other (what its first cell holds decides
+            # nothing about the others)
+            for col, c in enumerate(ln.cells):
+                cand.append((li, col))
+                if col:
+                    cand.append((li, col))
     if not cand:
         return
     k = rng.choice([1, 1, 2, 3, 4])
